@@ -55,6 +55,8 @@ import Tie.Excerpt
 #print axioms Sourcer.C16_copy_keeps_metadata
 #print axioms Sourcer.C16_leaves_and_lists
 #print axioms Sourcer.C11_context_table_identity
+#print axioms Sourcer.C13_late_binding
+#print axioms Sourcer.C13_super
 #print axioms Tie.implFlags_sound -- module Tie.Flags
 #print axioms Tie.impl_refines -- module Tie.Flags
 #print axioms Tie.map_index_eq -- module Tie.Excerpt
